@@ -34,7 +34,9 @@ def variants(rng, n):
     labels = n.split(b".")
     v = [n, n.upper(), n.title(), n[1:], n[:-1], n + b"x", b"x" + n, b"x." + n, n + b".evil.com", b"*." + b".".join(labels[1:]) if len(labels) > 1 else b"*",
          b"*." + n, b"*" + n[1:], b"r*." + b".".join(labels[1:]), n + b"\x00.evil.com", n[: len(n) // 2] + b"\x00" + n[len(n) // 2:], b"*.*." + b".".join(labels[2:]) if len(labels) > 2 else b"*.*",
-         b".".join(labels[1:]) or n, b"", b".", n.replace(b".", b"x"), n + b".", b" " + n]
+         b".".join(labels[1:]) or n, b"", b".", n.replace(b".", b"x"), n + b".", b" " + n,
+         # a value of several LINES, the expected name being one of them: an anchored expression is anchored to the value, not to a line
+         b"evil.example.net\n" + n, n + b"\nevil.example.net", b"x\n" + n + b"\ny"]
     return rng.choice(v)
 
 
